@@ -5,6 +5,11 @@ ROOT = os.path.dirname(os.path.dirname(os.path.abspath(__file__)))
 
 TECH = "deterministic simulation with fault injection: "
 CHECKS = {
+ "C20": dict(
+   text="vtx::Player on a recording AymBackend under seeded partitions of the output into play() buffer lengths (1, 2, odd, prime, huge, mixed; odd and length-1 buffers in stereo): exact register-write schedule (frame k at sample k*floor(rate/freq), R13=0xFF skipped), totals, end reporting, stream order; on the real AymPrecise the chunked stream must be bit-identical to the one-buffer stream for i8/i16/i32/f32/f64; Vtx::load of generated files (independent header/strings builder + literal-only LH5 encoder) and of the repository's files must give the frame-major transpose. Sampling, not proof.",
+   note="The schedule dimension is the caller's chunking of play(); no clock or fault is involved. Domain: sample_rate >= player_frequency >= 1; a length-1 buffer in stereo cannot hold a pair and must leave the stream untouched.",
+   technique=TECH+"seeded call/buffer-size schedules on the real player with a recording backend seam; stream identity across chunkings",
+   ref="5 (C20)"),
  "C10": dict(
    text="Seeded TAP images (0-6 blocks, boundary lengths around the 128-byte buffer, right/wrong checksums, chunked asset) and request sequences (A, LOAD/VERIFY, IX anywhere incl. ROM and wrap, DE incl. 0 and D=0xFF) issued as direct calls of the ROM routine with fast loading on; memory, IX, DE and carry compared with RefLdBytes (byte-level model of the ROM code); requests past the end of the tape must not return and must leave the machine bit-identical to a twin with no tape inserted. Sampling, not proof.",
    note="RefLdBytes is cross-validated against the real ROM loader running in real time by C11's system runs; the ROM's own stack traffic and (when its frame interrupt ran before returning) system variables are masked.",
